@@ -43,7 +43,11 @@ use serde::{Deserialize, Serialize};
 /// [`ShortMessage`]: trait.ShortMessage.html
 /// [`ParameterNumberMessageScanner`]: struct.ParameterNumberMessageScanner.html
 #[derive(Copy, Clone, Eq, PartialEq, Hash, Debug)]
-#[cfg_attr(feature = "serde", derive(Serialize, Deserialize))]
+#[cfg_attr(
+    feature = "serde",
+    derive(Serialize, Deserialize),
+    serde(try_from = "UncheckedParameterNumberMessage")
+)]
 pub struct ParameterNumberMessage {
     channel: Channel,
     number: U14,
@@ -51,6 +55,42 @@ pub struct ParameterNumberMessage {
     is_registered: bool,
     is_14_bit: bool,
     data_type: DataType,
+}
+
+/// Mirror of [`ParameterNumberMessage`] which is used for validating deserialized data.
+#[cfg(feature = "serde")]
+#[derive(Deserialize)]
+#[serde(rename = "ParameterNumberMessage")]
+struct UncheckedParameterNumberMessage {
+    channel: Channel,
+    number: U14,
+    value: U14,
+    is_registered: bool,
+    is_14_bit: bool,
+    data_type: DataType,
+}
+
+#[cfg(feature = "serde")]
+impl core::convert::TryFrom<UncheckedParameterNumberMessage> for ParameterNumberMessage {
+    type Error = &'static str;
+
+    fn try_from(msg: UncheckedParameterNumberMessage) -> Result<Self, Self::Error> {
+        if msg.is_14_bit {
+            if msg.data_type != DataType::DataEntry {
+                return Err("a 14-bit (N)RPN message must be a data entry message");
+            }
+        } else if msg.value > U14::from(U7::MAX) {
+            return Err("the value of a 7-bit (N)RPN message must be <= 127");
+        }
+        Ok(ParameterNumberMessage {
+            channel: msg.channel,
+            number: msg.number,
+            value: msg.value,
+            is_registered: msg.is_registered,
+            is_14_bit: msg.is_14_bit,
+            data_type: msg.data_type,
+        })
+    }
 }
 
 impl ParameterNumberMessage {
